@@ -71,7 +71,7 @@ def lean_sources():
                 yield os.path.join(root, f)
 
 
-def lean_obligations(prop, theorems, log):
+def lean_obligations(prop, theorems, log, tier='quick'):
     """Build the Lean project and audit the theorems of one property.
 
     Returns dict(ok, obligations, discharged, failures, axioms)."""
@@ -121,6 +121,15 @@ def lean_obligations(prop, theorems, log):
     if proc.returncode != 0 and res['ok']:
         res['ok'] = False
         res['failures'].append({'what': 'audit file failed', 'detail': out[-1500:]})
+    if tier == 'thorough' and res['ok']:
+        t0 = time.time()
+        proc = subprocess.run(['lake', 'env', 'leanchecker', f'Props.{prop}'], cwd=LEAN, stdout=subprocess.PIPE,
+                              stderr=subprocess.STDOUT, text=True)
+        res['leanchecker'] = {'module': f'Props.{prop}', 'exit': proc.returncode,
+                              'wall_s': round(time.time() - t0, 1)}
+        if proc.returncode != 0:
+            res['ok'] = False
+            res['failures'].append({'what': 'leanchecker rejected the compiled theorems', 'detail': proc.stdout[-1500:]})
     return res
 
 
@@ -346,7 +355,7 @@ def replay(run, plugin, path):
 
 def check(run, plugin, args):
     prop, tier = run.prop, run.tier
-    lean = lean_obligations(prop, plugin.THEOREMS, run.log)
+    lean = lean_obligations(prop, plugin.THEOREMS, run.log, tier)
     run.log(f"lean: {lean['discharged']}/{lean['obligations']} obligations, ok={lean['ok']} ({lean['build_s']}s build)")
     findings = load_findings(prop)
     driver_ok = True
@@ -465,7 +474,7 @@ def check(run, plugin, args):
         'obligations': lean['obligations'], 'discharged': lean['discharged'],
         'checker_cmd': f'cd lean && lake build && lake env lean Audit/{prop}.lean   # #print axioms of every theorem',
         'trusted_base': ['Lean 4.33.0 kernel', 'axioms: ' + ', '.join(sorted(ALLOWED_AXIOMS))] + list(plugin.TRUSTED),
-        'theorems': lean['axioms'],
+        'theorems': lean['axioms'], 'leanchecker': lean.get('leanchecker'),
         'evaluations': run.evaluations, 'distinct_nontrivial': len(run.nontrivial),
         'rule': plugin.RULE, 'samples': run.samples[:3],
         'traces_validated_against_impl': run.traces_validated,
